@@ -222,6 +222,8 @@ type world struct {
 	plog *plog
 	fam  []*term
 
+	unacked int // events emitted since the last point at which every inbox was known to be empty
+
 	ctx    context.Context
 	cancel context.CancelFunc
 	root   kcache.Controller
@@ -623,6 +625,7 @@ func (w *world) put(ns, name string, labels map[string]string) {
 	if dropped {
 		w.dropping--
 	}
+	w.noteTraffic()
 	rv := w.api.put(ns, name, labels)
 	if !dropped && w.rootReady {
 		w.api.mu.Lock()
@@ -640,6 +643,7 @@ func (w *world) del(ns, name string) bool {
 	if dropped {
 		w.dropping--
 	}
+	w.noteTraffic()
 	rv, _ := w.api.del(ns, name)
 	if !dropped && w.rootReady {
 		delete(w.view, ns+"/"+name)
@@ -653,6 +657,7 @@ func (w *world) del(ns, name string) bool {
 func (w *world) putForeign(ns, name string, labels map[string]string) {
 	ex := w.api.has(ns, name)
 	obj := &corev1.ConfigMap{ObjectMeta: metav1.ObjectMeta{Namespace: ns, Name: name, Labels: labels}}
+	w.noteTraffic()
 	rv := w.api.putObj(obj)
 	if w.cfg.typed == "" {
 		w.view[ns+"/"+name] = obj
@@ -864,6 +869,49 @@ func (n *node) isStalled() bool {
 
 // ---------------------------------------------------------------- barrier
 
+// noteTraffic is called before every event the harness makes the server emit.
+// The barrier acknowledges events only for nodes that forward the marker.  A
+// node that is not ready yet (a for-filter node without a filter, a node below
+// a not-ready parent) or whose filter rejects the marker still receives every
+// event in the inbox of its internal subscription and has to discard it; its
+// goroutine normally does so at once, but nothing makes the harness wait for
+// it, and under GOMAXPROCS=2 a goroutine can sit in a run queue for a whole
+// scheduler time slice while the rest of the pipeline moves > EventBufsiz
+// events: the inbox then overruns (dropping events is the library's documented
+// reaction to a consumer that lags by a full buffer) and, once the node is made
+// ready, the stale half of its inbox is applied without the corrections that
+// were dropped.  That is the harness exceeding the buffer bound every other
+// part of it respects, not a defect (DESIGN.md 10.10).  So: after every
+// EventBufsiz/3 events, if such a node exists, wait until every goroutine of
+// the process is parked, i.e. until every inbox is empty.
+func (w *world) noteTraffic() {
+	w.unacked++
+	if w.unacked < kcache.EventBufsiz/3 {
+		return
+	}
+	w.unacked = 0
+	if w.cfg.racy || !w.rootReady {
+		return
+	}
+	uncovered := false
+	for _, n := range w.nodes {
+		if n.closed || n.kind == "root" || n.isStalled() {
+			continue
+		}
+		if !w.shouldBeReady(n) || w.markerBlind(n) {
+			uncovered = true
+			break
+		}
+	}
+	if !uncovered {
+		return
+	}
+	if !waitQuiescent(wedgeBoundNow()) {
+		statSlow("harness-quiescence")
+	}
+	statExtraAdd(w.cfg.prop, "harness_quiescence_waits_for_nodes_outside_the_barrier", 1)
+}
+
 func (w *world) barrierNodes() []*node {
 	var out []*node
 	for _, n := range w.nodes {
@@ -924,6 +972,7 @@ func (w *world) barrier1() {
 	if !w.rootReady {
 		return // nothing can flow before the first list has been applied
 	}
+	w.noteTraffic()
 	rv := w.api.put(markerNS, "marker", nil)
 	w.markRV = rv
 	for _, n := range nodes {
